@@ -233,6 +233,11 @@ class ProfileMachine(Machine):
                     'method': rng.pick(['max', 'sum', 'max', 'bogus'])}
         if r < 0.86:
             return {'op': 'unnormalize'}
+        if r < 0.89:
+            # another object of the same class around the same centre, on
+            # another image with masked and non-finite pixels, at work in
+            # the same process
+            return {'op': 'decoy'}
         if self.variant == 'cog':
             return {'op': 'invert', 'i': rng.randrange(len(
                 st.scene['radii']))}
@@ -384,6 +389,21 @@ class ProfileMachine(Machine):
                     self._check_array(st, a, v, where + ' (restored)')
                     st.read.add(a)
             return
+        if kind == 'decoy':
+            sc2 = dict(st.scene)
+            d = dec(st.scene['data']).astype(float) * 1.3 + 0.7
+            yy, xx = np.indices(d.shape)
+            d[(xx + 3 * yy) % 11 == 0] = np.nan
+            sc2['data'] = enc(d)
+            sc2['mask'] = enc((xx + 2 * yy) % 5 == 0)
+            cfg2 = dict(st.cfg, mask=True, int_data=False, unit=False)
+            other = call(self.build, cfg2, sc2)
+            if not isinstance(other, Raised):
+                for attr in ('profile', 'area', 'profile_error'):
+                    call(getattr, other, attr)
+                call(other.normalize)
+            st.stats.probe('decoy_instance_used')
+            return
         if kind == 'invert':
             if self.variant != 'cog':
                 raise Inapplicable('invert')
@@ -465,7 +485,14 @@ class ProfileMachine(Machine):
         with np.errstate(all='ignore'):
             prof = st.ref['profile'] / st.f
         if not np.all(np.isfinite(prof)):
-            st.stats.probe('invert_skipped_nonfinite')
+            # no statement about the values of the interpolators on such a
+            # curve (the pinned tree raises), but the calls are made: what
+            # the object reports before and afterwards is checked as ever
+            call(o.calc_ee_at_radius, float(radii[i]))
+            fin = prof[np.isfinite(prof)]
+            call(o.calc_radius_at_ee, float(fin[0]) if fin.size else 1.0)
+            st.stats.probe('invert_called_on_nonfinite_curve')
+            st.hist.append('inv!')
             return
         r = float(radii[i])
         ee = call(o.calc_ee_at_radius, r)
